@@ -334,7 +334,7 @@ namespace fastscapelib
                         auto factor_delta_exp = factor * std::pow(delta_k, m_slope_exp);
                         auto func = delta_k + factor_delta_exp - delta_0;
 
-                        if (func <= m_tolerance)
+                        if (std::fabs(func) <= m_tolerance)
                         {
                             break;
                         }
